@@ -516,6 +516,63 @@ pub fn scaling_histories(max_video: usize) -> Vec<(Cfg, Vec<Op>, String)> {
             }
         }
     }
+    // payload shapes for the codecs whose frames are stored unchanged: bytes that look like Annex B
+    // start codes, ADTS sync words or trailing padding must survive (AV1, VP9, Opus; AAC payload)
+    {
+        use oracle::frames::{adts_frame as _, av1_seq_obu, obu, AdtsHdr, SeqHdr, Vp9Hdr};
+        let shapes: Vec<(&str, Vec<u8>)> = vec![
+            ("trailing zeros", vec![0x5a, 0x11, 0, 0, 0]),
+            ("3-byte start code inside", vec![0x5a, 0, 0, 1, 0x65, 0x88]),
+            ("4-byte start code at the end", vec![0x5a, 0x33, 0, 0, 0, 1]),
+            ("starts with a start code", vec![0, 0, 0, 1, 0x67, 0x42]),
+            ("ADTS sync inside", vec![0x21, 0xff, 0xf1, 0x50, 0x80, 0x01, 0x7f, 0xfc, 0x21]),
+            ("emulation prevention", vec![0x5a, 0, 0, 3, 1, 0, 0, 3]),
+            ("all zeros", vec![0; 9]),
+            ("all ones", vec![0xff; 9]),
+        ];
+        for (name, sh) in &shapes {
+            for fs in [true, false] {
+                for vc in [VCodec::Av1, VCodec::Vp9] {
+                    for ac in [ACodec::Opus, ACodec::AacLc] {
+                        let cfg = Cfg::basic(vc, Some(ac), fs);
+                        let mut ops = vec![];
+                        for i in 0..2usize {
+                            let key = i == 0;
+                            let v = match vc {
+                                VCodec::Av1 => {
+                                    let mut o = obu(2, false, true, &[]);
+                                    if key {
+                                        o.extend(av1_seq_obu(&SeqHdr::default().normalised()));
+                                    }
+                                    let mut p = vec![if key { 0x10 } else { 0x30 }];
+                                    p.extend_from_slice(sh);
+                                    o.extend(obu(6, false, true, &p));
+                                    o
+                                }
+                                _ => {
+                                    let mut o = Vp9Hdr::default().header(key);
+                                    o.extend_from_slice(sh);
+                                    o
+                                }
+                            };
+                            ops.push(Op::WV { pts: T(i as f64 * unit), data: Bytes::new(v), key });
+                            let a = if ac == ACodec::Opus {
+                                let mut p = vec![15 << 3];
+                                p.extend_from_slice(sh);
+                                p
+                            } else {
+                                let mut f = AdtsHdr { frame_length: (7 + sh.len()) as u16, ..Default::default() }.bytes();
+                                f.extend_from_slice(sh);
+                                f
+                            };
+                            ops.push(Op::WA { pts: T(i as f64 * unit), data: Bytes::new(a) });
+                        }
+                        out.push((cfg, ops, format!("payload shape: {name}")));
+                    }
+                }
+            }
+        }
+    }
     // one history per layout with more than 2^16 samples per track (16-bit counters, table
     // entry counts, chunk bookkeeping)
     for fs in [true, false] {
